@@ -166,9 +166,14 @@ func init() {
 			ctl.Acme = true // brings the leadership seam in: the leader subscriber is a producer of reconciliations too
 			rc := &RunConfig{Property: "C14", Profile: "handoff-l2", Seed: seed, Ctl: ctl, Lagfree: r.IntN(2) == 0, MidSched: r.IntN(2) == 0}
 
+			withFaults := r.IntN(2) == 0
+			quiesceEvery := pickInt(r, 4, 8)
+			if withFaults {
+				quiesceEvery = 0 // (no sync point while updates may still fail)
+			}
 			w := map[string]int{"class_change": 12, "ing_create": 6, "ing_update": 10, "ing_delete": 4, "ing_ann": 6, "svc_update": 4, "ep_scale": 8, "secret_rotate": 4, "global_change": 4, "renotify": 3, "advance": 4}
 			rc.World, rc.Ops = GenerateRun(seed, GenOptions{Sparse: r.IntN(2) == 0, ExcludeIngressKeys: alwaysExcludedIngressKeys, MinOps: mn, MaxOps: mx,
-				QuiesceEvery: pickInt(r, 4, 8), KeysPerRun: 4, W: w})
+				QuiesceEvery: quiesceEvery, KeysPerRun: 4, W: w})
 			// the lease is acquired and lost while events are pending
 			var ops []Op
 			leader := false
@@ -180,6 +185,16 @@ func init() {
 				}
 			}
 			rc.Ops = ops
+			if withFaults {
+				// reconciliations that fail, and are retried, while events keep arriving; the faults stop before the end
+				// (a failing synchronous reload makes the update, hence the reconciliation, fail)
+				rc.Faults = map[string]int{"haproxy.reload_fail": pickInt(r, 100, 250, 500)}
+				rc.Ctl.ReloadIntervalMs = 0
+				rc.Ctl.ReloadRetryMs = pickInt(r, 2000, 5000)
+				rc.MaxFaults = 1 + r.IntN(3)
+				last := rc.Ops[len(rc.Ops)-1]
+				rc.Ops = append(rc.Ops[:len(rc.Ops)-1], Op{Type: "faults_off"}, Op{Type: "advance", Ms: 31000}, last)
+			}
 			return rc
 		}})
 
